@@ -83,12 +83,23 @@ def _map_args(args, kwargs, f):
     return tuple(m(a) for a in args), {k: m(v) for k, v in kwargs.items()}
 
 
+def _req_grad(t):
+    """Same values, taking part in autograd as a leaf that requires grad."""
+    lt_ = t.ltype if isinstance(t, pp.LieTensor) else None
+    raw = t.tensor() if lt_ is not None else t
+    if not isinstance(raw, torch.Tensor) or not raw.is_floating_point() or raw.is_sparse or raw.layout != torch.strided:
+        return t
+    v = raw.detach().clone().requires_grad_(True)
+    return pp.LieTensor(v, ltype=lt_) if lt_ is not None else v
+
+
 def run(ck, prop, calls, monitor="repeat"):
     """calls: list of dicts {label, entry, fn, args, kwargs, fresh (optional: () -> fn on a new instance), random (bool)}."""
-    r1 = []
+    r1, r1_copy = [], []
     for c in calls:
         ok, out = ck.call(monitor, c["label"], c["entry"], c["fn"], *c["args"], witness={"call": c["label"]}, **c.get("kwargs", {}))
         r1.append(out if ok else None)
+        r1_copy.append([t.clone() for t in _flat(out)] if ok else None)
     # round 2, reverse order
     for c, ref in reversed(list(zip(calls, r1))):
         if ref is None or c.get("random"):
@@ -128,7 +139,34 @@ def run(ck, prop, calls, monitor="repeat"):
         ck.check(all(torch.equal(torch.nan_to_num(x), torch.nan_to_num(y)) for x, y in zip(before, after)), monitor, c["label"] + "/layout", c["entry"],
                  "argument_modified", {"call": c["label"]})
         ck.mark(f"{monitor}/layout")
-    ck.require(f"{monitor}/again", f"{monitor}/layout")
+    # round 4: the floating-point tensor arguments require grad (grad mode on) / the call runs under no_grad: same values
+    for c, ref in zip(calls, r1):
+        if ref is None or c.get("random") or c.get("no_autograd"):
+            continue
+        for mode in ("requires_grad", "no_grad"):
+            a2, k2 = _map_args(c["args"], c.get("kwargs", {}), _req_grad)
+            try:
+                if mode == "no_grad":
+                    with torch.no_grad():
+                        out = c["fn"](*a2, **k2)
+                else:
+                    out = c["fn"](*a2, **k2)
+            except Exception as e:  # noqa
+                ck.note_add("repeat_requires_grad_argument_raised/" + c["label"].split("[")[0], 1)
+                continue
+            ck.count(monitor, c["label"] + "/" + mode, key=(prop, c["label"], mode))
+            ck.ratio(monitor, c["label"] + "/" + mode, _same(out, ref), 1.0, c["entry"],
+                     "result_depends_on_how_the_arguments_take_part_in_autograd", {"call": c["label"], "mode": mode})
+            ck.mark(f"{monitor}/autograd")
+    # the results handed out in round 1 are the caller's: nothing called since may have changed them
+    for c, ref, kept in zip(calls, r1, r1_copy):
+        if ref is None:
+            continue
+        now = _flat(ref)
+        same = len(now) == len(kept) and all(a.shape == b.shape and torch.equal(torch.nan_to_num(a), torch.nan_to_num(b)) for a, b in zip(now, kept))
+        ck.count(monitor, c["label"] + "/kept", key=(prop, c["label"], "kept"))
+        ck.check(same, monitor, c["label"] + "/kept", c["entry"], "earlier_result_changed_by_a_later_call", {"call": c["label"]})
+    ck.require(f"{monitor}/again", f"{monitor}/layout", f"{monitor}/autograd")
     ck.floor(monitor, 6)
 
 
